@@ -286,7 +286,7 @@ class ManifestDocs(Engine):
             "route": st.just(rt),
             "stream": st.sampled_from(["bbb", "tears"]),
             "tm": st.sampled_from(tm if rt == "stream" else [t for t in tm if t[1] in ("live", "vod")]),
-            "opts": live, "clock": strategies.live_clock(), "hostile": hostile_map(rt),
+            "opts": live, "clock": strategies.live_clock(ancient=True), "hostile": hostile_map(rt),
         })).map(lambda c: {"route": c["route"], "stream": c["stream"], "template": c["tm"][0], "mode": c["tm"][1],
                            "opts": c["opts"], "clock": c["clock"], "hostile": c["hostile"]})
 
